@@ -1,5 +1,6 @@
 import PlinioVerif.Lemmas.PIT.Sharing
 import PlinioVerif.Props.C08
+import PlinioVerif.Lemmas.PIT.Labels
 /-!
 # C09 — every layer sees exactly the alive features of the tensor that reaches it
 
@@ -147,6 +148,15 @@ theorem reused_depthwise_sites_tied (hl : computeLabels p = some l) (hws : wellS
   rw [hop] at h
   unfold Coherent gm at h
   exact ⟨h.2.1, h.2.2⟩
+
+/-- **the masker classes are exactly the connected components of the sharing graph**: two nodes get
+the same masker iff a path of kept edges (element-wise ops, residual sums, depthwise convs, the two
+ties of a layer invoked again) joins them — layers that need not agree are never tied, layers that
+must agree always are -/
+theorem masker_classes_are_sharing_components (hl : computeLabels p = some l)
+    (hws : wellShaped p = true) (a b : ℕ) (ha : a < p.length) (hb : b < p.length) :
+    l.getD a 0 = l.getD b 0 ↔ Conn (keptEdges p) a b :=
+  classes_are_components p l hl hws a b ha hb
 
 /-- the number of input features a layer is exported with is the number of alive features of the
 tensor feeding it (what it reports and is charged for): the exported network is shape-consistent -/
